@@ -218,6 +218,9 @@ func (c *Case) familySafe(f int) bool {
 	case "parse", "query":
 		return true
 	case "one":
+		if f >= 3 {
+			return c.WarmOne == m2mOwner[f] // the owner's parse parses its target and the join table
+		}
 		return f == 1 && (c.WarmOne == mCompany || c.WarmOne == mAuthor || c.WarmOne == mBook)
 	}
 	return false
@@ -276,9 +279,17 @@ func (c *Case) inFirstUseClass() bool {
 				rest++
 			}
 		}
-		return rest >= 2
+		if rest >= 2 {
+			return true
+		}
+		for f := 3; f <= nFamilies; f++ {
+			if c.familyGoroutines(f) >= 2 {
+				return true
+			}
+		}
+		return false
 	}
-	for f := 1; f <= 2; f++ {
+	for f := 1; f <= nFamilies; f++ {
 		if !c.familySafe(f) && c.familyGoroutines(f) >= 2 {
 			return true
 		}
@@ -296,6 +307,9 @@ var assocRels = map[int][]string{
 	mCourier: {"Parcels"},
 	mCustoms: {"Parcels"},
 	mSorter:  {"Parcel"},
+	mBand:    {"Songs"},
+	mTeam:    {"Skills"},
+	mShop:    {"Brands"},
 }
 
 var preloadRels = map[int][]string{
@@ -306,6 +320,9 @@ var preloadRels = map[int][]string{
 	mCourier: {"Parcels"},
 	mCustoms: {"Parcels"},
 	mSorter:  {"Parcel"},
+	mBand:    {"Songs"},
+	mTeam:    {"Skills"},
+	mShop:    {"Brands"},
 }
 
 var joinRels = map[int][]string{
@@ -335,7 +352,20 @@ var (
 // palette: which model families a goroutine may use (the relation-free models always).
 type palette struct {
 	f1, f2 bool
+	m2m    [3]bool  // the many-to-many families 3, 4, 5
 	carry  *Carried // non-nil: "carried" operations may be generated (if the goroutine may use the model)
+}
+
+func (p palette) related() bool { return p.f1 || p.f2 || p.m2m[0] || p.m2m[1] || p.m2m[2] }
+
+func (p palette) m2mOwners() []int {
+	var ms []int
+	for i, ok := range p.m2m {
+		if ok {
+			ms = append(ms, m2mOwner[3+i])
+		}
+	}
+	return ms
 }
 
 func (p palette) models() []int {
@@ -346,16 +376,23 @@ func (p palette) models() []int {
 	if p.f2 {
 		ms = append(ms, family2Models...)
 	}
+	for _, o := range p.m2mOwners() {
+		ms = append(ms, o, o+1) // owner and its target
+	}
 	return ms
 }
 
-func (p palette) pick(f1, f2 []int) []int {
+// pick: the owner types a relation operation may use; withM2M adds the many-to-many owners.
+func (p palette) pick(f1, f2 []int, withM2M ...bool) []int {
 	var ms []int
 	if p.f1 {
 		ms = append(ms, f1...)
 	}
 	if p.f2 {
 		ms = append(ms, f2...)
+	}
+	if len(withM2M) > 0 && withM2M[0] {
+		ms = append(ms, p.m2mOwners()...)
 	}
 	return ms
 }
@@ -368,6 +405,8 @@ func genOp(t *rapid.T, pal palette, depth int) Op {
 	if pal.f1 || pal.f2 {
 		kinds = append(kinds, relKinds...)
 		kinds = append(kinds, "delassoc")
+	} else if pal.related() { // many-to-many families only: no relation Joins, no delassoc owner
+		kinds = append(kinds, "tree", "tree", "preload", "preload", "aappend", "aappend", "afind", "acount", "areplace", "adelete", "aclear")
 	}
 	if depth < 2 {
 		kinds = append(kinds, "tx", "tx", "tx", "mtx")
@@ -421,11 +460,11 @@ func fillOp(t *rapid.T, o *Op, pal palette) {
 	case "delassoc":
 		o.M = rapid.SampledFrom(pal.pick([]int{mAuthor, mAuthor}, parcelOwners)).Draw(t, "owner")
 	case "tree":
-		o.M = rapid.SampledFrom(pal.pick([]int{mAuthor, mAuthor}, parcelOwners)).Draw(t, "owner")
+		o.M = rapid.SampledFrom(pal.pick([]int{mAuthor, mAuthor}, parcelOwners, true)).Draw(t, "owner")
 		o.B = rapid.IntRange(1, nKeys).Draw(t, "b")
 		o.V = rapid.IntRange(0, 31).Draw(t, "parts")
 	case "preload":
-		o.M = rapid.SampledFrom(pal.pick([]int{mAuthor, mAuthor, mBook, mCompany}, parcelOwners)).Draw(t, "owner")
+		o.M = rapid.SampledFrom(pal.pick([]int{mAuthor, mAuthor, mBook, mCompany}, parcelOwners, true)).Draw(t, "owner")
 		rels := preloadRels[o.M]
 		mask := rapid.IntRange(1, 1<<len(rels)-1).Draw(t, "rels")
 		var pick []string
@@ -439,7 +478,7 @@ func fillOp(t *rapid.T, o *Op, pal palette) {
 		o.M = rapid.SampledFrom(pal.pick([]int{mAuthor, mBook}, []int{mSorter})).Draw(t, "owner")
 		o.R = rapid.SampledFrom(joinRels[o.M]).Draw(t, "rel")
 	case "aappend", "afind", "acount", "areplace", "adelete", "aclear":
-		o.M = rapid.SampledFrom(pal.pick([]int{mAuthor, mAuthor, mAuthor, mBook, mCompany}, parcelOwners)).Draw(t, "owner")
+		o.M = rapid.SampledFrom(pal.pick([]int{mAuthor, mAuthor, mAuthor, mBook, mCompany}, parcelOwners, true)).Draw(t, "owner")
 		o.R = rapid.SampledFrom(assocRels[o.M]).Draw(t, "rel")
 		o.B = rapid.IntRange(1, nKeys).Draw(t, "b")
 		o.A = rapid.IntRange(1, 3).Draw(t, "ownerKey") // keys 1 and 2 are seeded: the owner mostly exists
@@ -551,14 +590,35 @@ func genCase(t *rapid.T) *Case {
 	// is used by everybody: first calls (phase A) on the cold owner types, the rest of the programs
 	// (phase B) after all of the family has been parsed.
 	open := firstUseOpen()
-	only := [3]int{-2, -2, -2} // -2: everybody may use the family; -1: nobody; g: only goroutine g
+	only := [nFamilies + 1]int{-2, -2, -2, -2, -2, -2} // -2: everybody may use the family; -1: nobody; g: only goroutine g
 	for f := 1; f <= 2; f++ {
 		if open && !c.familySafe(f) && !(f == 2 && c.Warm == "targets") {
 			only[f] = rapid.IntRange(-1, c.G-1).Draw(t, fmt.Sprintf("family%dGoroutine", f))
 		}
 	}
-	if only[1] != -2 || only[2] != -2 {
-		evid.Excluded(classColdRelated)
+	// the many-to-many families, while cold: one goroutine each - different goroutines where G allows,
+	// and their first calls are on their family (create with targets, then preload), so that the
+	// unrelated many-to-many parses run at the same instant
+	m2mFirst := map[int][]Op{}
+	if base := rapid.IntRange(0, c.G-1).Draw(t, "m2mBase"); true {
+		for f := 3; f <= nFamilies; f++ {
+			if !open || c.familySafe(f) {
+				continue
+			}
+			only[f] = (base + f) % c.G
+			if c.Warm == "targets" || rapid.IntRange(0, 3).Draw(t, "m2mFirst") == 0 {
+				continue // used (if at all) somewhere later in the goroutine's program
+			}
+			owner := m2mOwner[f]
+			tree := Op{K: "tree", M: owner, A: rapid.IntRange(3, nKeys).Draw(t, "a"), B: rapid.IntRange(3, nKeys).Draw(t, "b"), V: rapid.IntRange(0, 31).Draw(t, "parts")}
+			m2mFirst[only[f]] = append(m2mFirst[only[f]], tree, Op{K: "preload", M: owner, R: m2mRel(owner)})
+		}
+	}
+	for f := 1; f <= nFamilies; f++ {
+		if only[f] != -2 {
+			evid.Excluded(classColdRelated)
+			break
+		}
 	}
 	if open && c.Warm == "targets" {
 		evid.Excluded(classTargetInUse)
@@ -573,6 +633,9 @@ func genCase(t *rapid.T) *Case {
 	c.Programs = make([][]Op, c.G)
 	for g := range c.Programs {
 		pal := palette{f1: only[1] == -2 || only[1] == g, f2: only[2] == -2 || only[2] == g, carry: c.Carry}
+		for i := range pal.m2m {
+			pal.m2m[i] = only[3+i] == -2 || only[3+i] == g
+		}
 		n := rapid.IntRange(1, maxOps).Draw(t, "len")
 		var first []Op
 		switch {
@@ -587,7 +650,11 @@ func genCase(t *rapid.T) *Case {
 			fillOp(t, &o, palette{})
 			first = []Op{o}
 		case c.Warm == "targets":
-			first = genProgram(t, palette{f1: true, f2: true}, 1)
+			first = genProgram(t, palette{f1: true, f2: true, m2m: [3]bool{true, true, true}}, 1)
+		}
+		first = append(first, m2mFirst[g]...)
+		if n < len(first) {
+			n = len(first)
 		}
 		c.Programs[g] = append(first, genProgram(t, pal, n-len(first))...)
 	}
@@ -634,7 +701,7 @@ func build(m, g, a, b, v int) interface{} {
 	case mGadget:
 		return &Gadget{ID: id, Name: fmt.Sprintf("g%d", v), Qty: v, Labels: []string{"x", fmt.Sprint(v)}[:1+v%2], Level: Level(v % 4), Spec: Spec{Color: []string{"", "red", "blue"}[v%3], Size: v}}
 	case mWidget:
-		return &Widget{ID: id, Code: fmt.Sprintf("w%d", v), Weight: float64(v) / 2}
+		return &Widget{ID: id, Code: fmt.Sprintf("w%d", v), Weight: float64(v) / 2, Secret: Cipher(fmt.Sprintf("s%d-%d", id, v))}
 	case mParcel:
 		x := &Parcel{ID: id, Label: fmt.Sprintf("p%d", v), Weight: v, DepotID: pkey(g, 1+v%nKeys), CourierID: pkey(g, 1+(v+1)%nKeys)}
 		if v%2 == 0 {
@@ -652,6 +719,18 @@ func build(m, g, a, b, v int) interface{} {
 		return &Customs{ID: id, Name: fmt.Sprintf("cu%d", v)}
 	case mSorter:
 		return &Sorter{ID: id, Name: fmt.Sprintf("so%d", v)}
+	case mBand:
+		return &Band{ID: id, Name: fmt.Sprintf("ba%d", v)}
+	case mSong:
+		return &Song{ID: id, Title: fmt.Sprintf("sg%d", v)}
+	case mTeam:
+		return &Team{ID: id, Name: fmt.Sprintf("te%d", v)}
+	case mSkill:
+		return &Skill{ID: id, Label: fmt.Sprintf("sk%d", v)}
+	case mShop:
+		return &Shop{ID: id, Name: fmt.Sprintf("sh%d", v)}
+	case mBrand:
+		return &Brand{ID: id, Label: fmt.Sprintf("br%d", v)}
 	}
 	panic("harness: build")
 }
@@ -699,8 +778,12 @@ func changes(m, v int) map[string]interface{} {
 		return map[string]interface{}{"code": fmt.Sprintf("W%d", v), "weight": float64(v) + 0.25}
 	case mParcel:
 		return map[string]interface{}{"label": fmt.Sprintf("P%d", v), "weight": 70 + v}
-	case mDepot, mCourier, mCustoms, mSorter:
+	case mDepot, mCourier, mCustoms, mSorter, mBand, mTeam, mShop:
 		return map[string]interface{}{"name": fmt.Sprintf("%s%d", strings.ToUpper(modelNames[m][:2]), v)}
+	case mSong:
+		return map[string]interface{}{"title": fmt.Sprintf("SG%d", v)}
+	case mSkill, mBrand:
+		return map[string]interface{}{"label": fmt.Sprintf("%s%d", strings.ToUpper(modelNames[m][:2]), v)}
 	}
 	panic("harness: changes")
 }
@@ -720,6 +803,12 @@ var modelColumns = [nModels][][2]string{
 	mCourier: {{"Name", "name"}},
 	mCustoms: {{"Name", "name"}},
 	mSorter:  {{"Name", "name"}},
+	mBand:    {{"Name", "name"}},
+	mSong:    {{"Title", "title"}},
+	mTeam:    {{"Name", "name"}},
+	mSkill:   {{"Label", "label"}},
+	mShop:    {{"Name", "name"}},
+	mBrand:   {{"Label", "label"}},
 }
 
 // spelling: database name, field name, lowerCamel, UPPER_SNAKE, Title_Snake.
@@ -752,7 +841,7 @@ func columnValue(m int, column string, g, v int) interface{} {
 }
 
 func firstColumn(m int) string {
-	return [nModels]string{"name", "name", "bio", "title", "stars", "label", "name", "code", "label", "name", "name", "name", "name"}[m]
+	return [nModels]string{"name", "name", "bio", "title", "stars", "label", "name", "code", "label", "name", "name", "name", "name", "name", "title", "name", "label", "name", "label"}[m]
 }
 
 func errText(err error) string {
@@ -794,6 +883,12 @@ func targets(owner int, rel string, g, b, v int) interface{} {
 		return &[]Parcel{{ID: keyOf(g, b), Label: fmt.Sprintf("p%d", v)}, {ID: keyOf(g, 1+b%nKeys), Label: "second"}}
 	case mSorter:
 		return &Parcel{ID: keyOf(g, b), Label: fmt.Sprintf("p%d", v)}
+	case mBand:
+		return &[]Song{{ID: keyOf(g, b), Title: fmt.Sprintf("sg%d", v)}, {ID: keyOf(g, 1+b%nKeys), Title: "second"}}
+	case mTeam:
+		return &[]Skill{{ID: keyOf(g, b), Label: fmt.Sprintf("sk%d", v)}, {ID: keyOf(g, 1+b%nKeys), Label: "second"}}
+	case mShop:
+		return &[]Brand{{ID: keyOf(g, b), Label: fmt.Sprintf("br%d", v)}, {ID: keyOf(g, 1+b%nKeys), Label: "second"}}
 	}
 	panic("harness: targets")
 }
@@ -814,6 +909,12 @@ func targetModel(owner int, rel string) int {
 		return mReview
 	case "Parcels", "Parcel":
 		return mParcel
+	case "Songs":
+		return mSong
+	case "Skills":
+		return mSkill
+	case "Brands":
+		return mBrand
 	}
 	panic("harness: targetModel")
 }
@@ -898,6 +999,32 @@ func exec(db *gorm.DB, g int, o Op) string {
 		r := db.Model(&Gadget{}).Where(fmt.Sprintf("no_such_column_%d = ?", o.V), keyOf(g, o.A)).Count(&n)
 		return fmt.Sprintf("%s n=%d", errText(r.Error), n)
 	case "tree":
+		if isM2MOwner(o.M) {
+			var v interface{}
+			two := o.V&1 == 0
+			switch o.M {
+			case mBand:
+				x := &Band{ID: keyOf(g, o.A), Name: "tree", Songs: []Song{{ID: keyOf(g, o.A), Title: "ts1"}, {ID: keyOf(g, o.B), Title: "ts2"}}}
+				if !two {
+					x.Songs = x.Songs[:1]
+				}
+				v = x
+			case mTeam:
+				x := &Team{ID: keyOf(g, o.A), Name: "tree", Skills: []Skill{{ID: keyOf(g, o.A), Label: "tk1"}, {ID: keyOf(g, o.B), Label: "tk2"}}}
+				if !two {
+					x.Skills = x.Skills[:1]
+				}
+				v = x
+			default:
+				x := &Shop{ID: keyOf(g, o.A), Name: "tree", Brands: []Brand{{ID: keyOf(g, o.A), Label: "tb1"}, {ID: keyOf(g, o.B), Label: "tb2"}}}
+				if !two {
+					x.Brands = x.Brands[:1]
+				}
+				v = x
+			}
+			r := db.Create(v)
+			return fmt.Sprintf("%s ra=%d %s", errText(r.Error), r.RowsAffected, render(v))
+		}
 		if family(o.M) == 2 {
 			var v interface{}
 			ps := []Parcel{{ID: keyOf(g, o.A), Label: "tp1", Weight: o.V}, {ID: keyOf(g, o.B), Label: "tp2"}}
@@ -1478,8 +1605,14 @@ func seed(db *sql.DB, G int) {
 		add("reviews", "(%d,4,%d),(%d,2,%d)", k1, k1, k2, k1)
 		add("tags", "(%d,'seedl1'),(%d,'seedl2')", k1, k2)
 		add("author_tags", "(%d,%d),(%d,%d)", k1, k1, k1, k2)
+		for _, tb := range []string{"bands", "songs", "teams", "skills", "shops", "brands"} {
+			add(tb, "(%d,'seed1'),(%d,'seed2')", k1, k2)
+		}
+		for _, tb := range []string{"band_songs", "team_skills", "shop_brands"} {
+			add(tb, "(%d,%d),(%d,%d)", k1, k1, k1, k2)
+		}
 		add("gadgets", "(%d,'seedg1',1,'[\"s\"]','L1','red',1,'2031-07-05 11:12:13+00:00','2031-07-05 11:12:13+00:00'),(%d,'seedg2',2,NULL,'L2','',2,'2031-07-05 11:12:13+00:00','2031-07-05 11:12:13+00:00')", k1, k2)
-		add("widgets", "(%d,'seedw1',1.5,NULL),(%d,'seedw2',2.5,NULL)", k1, k2)
+		add("widgets", "(%d,'seedw1',1.5,NULL,'enc:seed%d'),(%d,'seedw2',2.5,NULL,'enc:seed%d')", k1, k1, k2, k2)
 		add("parcels", "(%d,'seedp1',5,%d,%d,%d,%d),(%d,'seedp2',6,%d,%d,NULL,NULL)", k1, k1, k1, k1, k1, k2, k1, k2)
 		for _, tb := range []string{"depots", "couriers", "customs", "sorters"} {
 			add(tb, "(%d,'seed1'),(%d,'seed2')", k1, k2)
@@ -1489,7 +1622,7 @@ func seed(db *sql.DB, G int) {
 	if err != nil {
 		panic("harness: seed: " + err.Error())
 	}
-	for _, tb := range append(append([]string(nil), modelTables[:]...), "author_tags") {
+	for _, tb := range append(append([]string(nil), modelTables[:]...), joinTables...) {
 		if _, err := tx.Exec("INSERT INTO " + tb + " VALUES " + strings.Join(stmts[tb], ",")); err != nil {
 			panic("harness: seed " + tb + ": " + err.Error())
 		}
@@ -1532,11 +1665,13 @@ func (d *caseDB) warm(c *Case) {
 // dump reads every table through database/sql (not gorm), ordered by key.
 func dump(db *sql.DB) []string {
 	var out []string
-	tables := append(append([]string(nil), modelTables[:]...), "author_tags")
+	tables := append(append([]string(nil), modelTables[:]...), joinTables...)
 	for _, tb := range tables {
 		order := "id"
-		if tb == "author_tags" {
-			order = "author_id, tag_id"
+		for _, jt := range joinTables {
+			if tb == jt {
+				order = "1, 2" // the two key columns
+			}
 		}
 		rows, err := db.Query("SELECT * FROM " + tb + " ORDER BY " + order)
 		if err != nil {
@@ -1952,7 +2087,24 @@ func runCase(rt *rapid.T) {
 			cl = append(cl, "first-op:same-failing-text-by-all")
 		}
 	}
-	for f := 1; f <= 2; f++ {
+	coldM2M := 0
+	for f := 3; f <= nFamilies; f++ {
+		if !c.familySafe(f) && len(c.Programs) > 0 {
+			for _, p := range c.Programs {
+				if o := p[0]; isM2MOwner(o.M) && family(o.M) == f && o.K == "tree" {
+					coldM2M++
+				} else if len(p) > 1 && strings.HasPrefix(p[0].K, "bad") || len(p) > 1 && (p[0].K == "first" || p[0].K == "count") {
+					if o := p[1]; isM2MOwner(o.M) && family(o.M) == f && o.K == "tree" {
+						coldM2M++
+					}
+				}
+			}
+		}
+	}
+	if coldM2M >= 2 {
+		cl = append(cl, fmt.Sprintf("m2m:first-call-on-%d-unrelated-cold-many2many-owners", coldM2M))
+	}
+	for f := 1; f <= nFamilies; f++ {
 		n := c.familyGoroutines(f)
 		if c.Warm == "targets" && f == 2 {
 			continue // labelled by the number of distinct cold owner types below
